@@ -1,0 +1,132 @@
+//go:build verif && (verif_all || verif_c14)
+// +build verif
+// +build verif_all verif_c14
+
+package gocql
+
+// Verification hooks for C14 (prepared statements): exported wrappers over internal/lru and the
+// unexported preparedLRU / inflightPrepare so that the external harness can drive them. Add-only.
+
+import (
+	"errors"
+	"fmt"
+	"path/filepath"
+	"runtime"
+
+	"github.com/gocql/gocql/internal/lru"
+)
+
+// VerifC14SourceDir is the directory this package was compiled from (for the AST expectations).
+func VerifC14SourceDir() string {
+	_, f, _, _ := runtime.Caller(0)
+	return filepath.Dir(f)
+}
+
+// VerifC14LRU wraps a real lru.Cache with string values; OnEvicted callbacks are recorded.
+type VerifC14LRU struct {
+	c  *lru.Cache
+	ev []string
+}
+
+func VerifC14NewLRU(max int) *VerifC14LRU {
+	l := &VerifC14LRU{c: lru.New(max)}
+	l.c.OnEvicted = func(k string, v interface{}) { l.ev = append(l.ev, k+":"+v.(string)) }
+	return l
+}
+func (l *VerifC14LRU) take() []string { e := l.ev; l.ev = nil; return e }
+func (l *VerifC14LRU) Add(k, v string) []string { l.c.Add(k, v); return l.take() }
+func (l *VerifC14LRU) Get(k string) (string, bool) {
+	v, ok := l.c.Get(k)
+	if !ok {
+		return "", false
+	}
+	return v.(string), true
+}
+func (l *VerifC14LRU) Remove(k string) (bool, []string) { ok := l.c.Remove(k); return ok, l.take() }
+func (l *VerifC14LRU) RemoveOldest() []string            { l.c.RemoveOldest(); return l.take() }
+func (l *VerifC14LRU) Len() int                          { return l.c.Len() }
+
+// VerifC14Prep wraps a real preparedLRU holding real *inflightPrepare values.
+type VerifC14Prep struct {
+	p       *preparedLRU
+	flights []*inflightPrepare
+	keys    []string
+	idx     map[*inflightPrepare]int
+	ev      []string
+}
+
+func VerifC14NewPrep(max int) *VerifC14Prep {
+	x := &VerifC14Prep{p: &preparedLRU{lru: lru.New(max)}, idx: map[*inflightPrepare]int{}}
+	x.p.lru.OnEvicted = func(k string, v interface{}) {
+		i, ok := x.idx[v.(*inflightPrepare)]
+		if !ok {
+			i = len(x.flights) // the entry being published right now (purged at once when MaxEntries < 0)
+		}
+		x.ev = append(x.ev, fmt.Sprintf("%s:%d", k, i))
+	}
+	return x
+}
+func (x *VerifC14Prep) take() []string { e := x.ev; x.ev = nil; return e }
+
+func (x *VerifC14Prep) KeyFor(hostID, keyspace, stmt string) string {
+	return x.p.keyFor(hostID, keyspace, stmt)
+}
+
+// Lookup is the critical section of Conn.prepareStatement: execIfMissing with the closure that
+// publishes a fresh in-flight entry.
+func (x *VerifC14Prep) Lookup(key string) (int, bool, []string) {
+	flight, ok := x.p.execIfMissing(key, func(c *lru.Cache) *inflightPrepare {
+		flight := &inflightPrepare{done: make(chan struct{})}
+		c.Add(key, flight)
+		return flight
+	})
+	if !ok {
+		x.idx[flight] = len(x.flights)
+		x.flights = append(x.flights, flight)
+		x.keys = append(x.keys, key)
+	}
+	return x.idx[flight], ok, x.take()
+}
+
+// Complete is what the winner's goroutine does at the end: success stores the prepared statement;
+// failure stores the error and removes the key; then done is closed.
+func (x *VerifC14Prep) Complete(f int, id []byte, fail bool) (bool, []string) {
+	if f < 0 || f >= len(x.flights) {
+		return false, nil
+	}
+	flight := x.flights[f]
+	select {
+	case <-flight.done:
+		return false, nil
+	default:
+	}
+	if fail {
+		flight.err = errors.New("verif: prepare failed")
+		x.p.remove(x.keys[f])
+	} else {
+		flight.preparedStatment = &preparedStatment{id: copyBytes(id)}
+	}
+	close(flight.done)
+	return true, x.take()
+}
+
+// Outcome is what a waiter of flight f reads once it is done: "inflight", "failed" or the id.
+func (x *VerifC14Prep) Outcome(f int) (string, []byte) {
+	flight := x.flights[f]
+	select {
+	case <-flight.done:
+		if flight.err != nil {
+			return "failed", nil
+		}
+		return "ok", flight.preparedStatment.id
+	default:
+		return "inflight", nil
+	}
+}
+
+func (x *VerifC14Prep) Unprepared(key string, id []byte) []string {
+	x.p.evictPreparedID(key, id)
+	return x.take()
+}
+func (x *VerifC14Prep) Len() int        { return x.p.lru.Len() }
+func (x *VerifC14Prep) Clear() []string { x.p.clear(); return x.take() }
